@@ -2,7 +2,7 @@
 only as the two partners of an accepted MGM2 offer."""
 from ..algocheck import run_algo_check, replay  # noqa: F401
 
-SMALL = ["pair", "pair3", "parallel", "unarypair", "isolated", "path3", "path3d3", "fork3", "triangle", "tern", "ternpair"]
+SMALL = ["pair", "pair3", "parallel", "unarypair", "isolated", "isounary", "path3", "path3d3", "fork3", "triangle", "tern", "ternpair"]
 LARGE = ["twocomp", "path4", "star4", "cycle4", "tritail", "path5", "tree5", "tern5"]
 CLAUSES = {"C03_cost_got_worse", "C03_neighbours_moved_together"}
 
@@ -27,5 +27,12 @@ def run(tier):
                             "min and max, TLC-drawn tables and initial values; MGM and MGM2 with stop_cycle 4 (quick) / 6; seeded "
                             "per-channel-FIFO schedules (barrier-heavy so that equal-cycle instants are frequent); AlgoMon snapshots the "
                             "assignment at every instant where all computations with neighbours completed the same number of cycles and "
-                            "checks consecutive snapshots; non-trivial = at least one value change between consecutive snapshots")
+                            "checks consecutive snapshots; non-trivial = at least one value change between consecutive snapshots. "
+                            "MODEL: Mgm.tla (implementation-shaped model of MgmComputation) checked by TLC over every start order, "
+                            "FIFO delivery order and random draw on TLC-drawn instances (invariants CostMonotone, MoveAlone and the "
+                            "structural ones), every explored transition replayed on the real computations with the whole local "
+                            "state compared; if the real computations leave the model, their own reachable graph is explored and "
+                            "judged by TLC (Judge_Hist)")
+    from ..mgmmodel import model_part
+    model_part(v, tier, ["CostMonotone", "MoveAlone"], CLAUSES, ["c03"], seed_off=3)
     return v.finish()
